@@ -1,0 +1,70 @@
+//go:build verif
+
+// Verification hooks for property C13 (final outputs under outs/), part b:
+// the real Fork.postProcess of the top-level call of a freshly instantiated
+// pipestance, on an _outs record supplied by the caller.  This puts the
+// mapped-call branches of Fork.postProcess (the step from the fork's array
+// index / map key to its directory under outs/) inside what is compared.
+// Compiled only with -tags verif.
+
+package core
+
+import (
+	"context"
+
+	"github.com/martian-lang/martian/martian/util"
+)
+
+// VerifTopFork is the single fork of the top-level call of a pipestance which
+// was instantiated but not run.
+type VerifTopFork struct {
+	ps   *Pipestance
+	fork *Fork
+}
+
+// VerifInstantiateTop parses and instantiates src (which must end in a call
+// statement) with psPath as the pipestance directory.  No job is started.
+func VerifInstantiateTop(src []byte, psPath string) (*VerifTopFork, error) {
+	conf := DefaultRuntimeOptions()
+	rt := Runtime{
+		Config: &conf,
+		LocalJobManager: &LocalJobManager{
+			jobSettings: new(JobManagerSettings),
+		},
+	}
+	rt.JobManager = rt.LocalJobManager
+	_, _, pipestance, err := rt.instantiatePipeline(src,
+		"verif_c13.mro", "verif_c13", psPath, nil,
+		"none", nil, false, false, context.Background())
+	if err != nil {
+		return nil, err
+	}
+	if len(pipestance.node.forks) != 1 {
+		return nil, &RuntimeError{Msg: "expected exactly one top-level fork"}
+	}
+	fork := pipestance.node.forks[0]
+	if err := util.MkdirAll(fork.path); err != nil {
+		return nil, err
+	}
+	return &VerifTopFork{ps: pipestance, fork: fork}, nil
+}
+
+// ForkPath returns the directory of the top-level fork (where its _outs is).
+func (self *VerifTopFork) ForkPath() string {
+	return self.fork.path
+}
+
+// WriteOuts stores raw as the fork's _outs record.
+func (self *VerifTopFork) WriteOuts(raw []byte) error {
+	return self.fork.metadata.WriteRawBytes(OutsFile, raw)
+}
+
+// ReadOuts returns the raw bytes of the fork's _outs record.
+func (self *VerifTopFork) ReadOuts() ([]byte, error) {
+	return self.fork.metadata.readRawBytes(OutsFile)
+}
+
+// PostProcess runs the real Fork.postProcess.
+func (self *VerifTopFork) PostProcess() error {
+	return self.fork.postProcess(context.Background())
+}
